@@ -11,7 +11,7 @@ Driver for correspondence stream `ten` (property C18).  One request per line:
   acalr <mat A> <tol> maxiter <rnd>                      -> "<log> | <pivots> | <crosses as X>"
   cop  <n> <cop>… <m> <cop-op>…    -> step results joined by " ; "   (CanonicalOperator algebra)
   matricize <full> k | modek <mat> k <full> | aouter <n> <full>…
-  gtaranks (N|thr) <ranks0> <steps: list of per-mode norms>  -> ranks       (skip rule of gta's basis extension)
+  gtaranks (R c | A thr | N) <mode sizes> <steps: list of per-mode `ny nv`>  -> ranks   (skip rule of gta/gta_ls)
 tensor   = F <shape> <data> | C <d> <mat>… | T <d> <mat>… <shape> <data> | S <n> <tensor>… | P <n> <tensor>…
 mat      = rows cols <data>
 index    = i <int> | s <oint> <oint> <oint> | l <ints>          (oint = N or int)
@@ -280,13 +280,17 @@ def request : P String := do
       | some l => pure (" ; ".intercalate l)
       | none => failure
   | "gtaranks" => do
-      -- ranks after replaying the basis-extension decisions: thr (N = no skip), initial ranks, steps of norms per mode
-      let thr ← tok
-      let thr : Option Rat ← (if thr == "N" then pure none else match (runLine rat thr) with | some q => pure (some q) | none => failure)
-      let r0 ← list nat
-      let steps ← list (list rat)
-      let U0 : List (Mat Q) := r0.map (fun r => Mat.zeros 1 r)
-      let Us := steps.foldl (fun Us nys => (Us.zip nys).map (fun p => gtaExtend thr p.1 (fun _ => 0) p.2)) U0
+      -- ranks after replaying the basis-extension decisions: rule (R c | A thr | N), mode sizes, steps of (ny, nv) per mode
+      let rt ← tok
+      let rule : SkipRule Rat ← (match rt with
+        | "R" => do let c ← rat; pure (SkipRule.relative c)
+        | "A" => do let t ← rat; pure (SkipRule.absolute t)
+        | "N" => pure SkipRule.never
+        | _ => failure)
+      let sizes ← list nat
+      let steps ← list (list (pair rat rat))
+      let U0 : List (Mat Q) := sizes.map (fun n => Mat.zeros n 1)
+      let Us := steps.foldl (fun Us nys => (Us.zip nys).map (fun p => gtaExtend rule p.1 (fun _ => 0) p.2.1 p.2.2)) U0
       pure (showNats (Us.map (·.cols)))
   | "matricize" => do
       let X ← pFull; let k ← nat
